@@ -247,6 +247,27 @@ def check_arrays(mod, col: Collector, tier: str):
                                 m = Mn()
                                 setattr(m, f, prefill)
                                 col.attempt(m, f"{f}={formname}(bad@{pos}:{bad!r},nan@{npos})", lambda: setattr(m, f, form(seq2)), "out", lambda: getattr(m, f)[:])
+                if tier == "thorough":
+                    # two bad elements: every pair of positions x every pair of out-of-domain values
+                    for p1, p2 in itertools.combinations(range(n), 2):
+                        for b1 in bads:
+                            for b2 in bads:
+                                seq = list(good)
+                                seq[p1], seq[p2] = b1, b2
+                                m = Mn()
+                                setattr(m, f, prefill)
+                                col.attempt(m, f"{f}={formname}(bad@{p1}:{b1!r},bad@{p2}:{b2!r})", lambda: setattr(m, f, form(seq)), "out", lambda: getattr(m, f)[:])
+                    # a bad element in a sequence whose other elements sit on the domain's edges
+                    edges = ([lo, hi, 0, -1 if lo < 0 else 1][:n]) if isint else [F32MAX if t == "float" else F64MAX, -0.0, NAN, 1.5][:n]
+                    for pos in range(n):
+                        for bad in bads:
+                            seq = list(edges)
+                            seq[pos] = bad
+                            m = Mn()
+                            setattr(m, f, prefill)
+                            col.attempt(m, f"{f}={formname}(edges,bad@{pos}:{bad!r})", lambda: setattr(m, f, form(seq)), "out", lambda: getattr(m, f)[:])
+                    m = Mn()
+                    col.attempt(m, f"{f}={formname}(edges)", lambda: setattr(m, f, form(edges)), "in", lambda: getattr(m, f)[:], [conv(x) for x in edges], cmpl)
                 if isint and n >= 3:
                     for mid in (2.5, 2.0, NAN, complex(2, 0)):
                         for pos in range(1, n):
@@ -296,12 +317,13 @@ def check_arrays(mod, col: Collector, tier: str):
                             lambda: getattr(m, f)[:], [conv(x) for x in exp], cmpl)
                 if k:
                     for pos in ((0, k - 1) if tier == "quick" else range(k)):
+                      for bad in (bads[:1] if tier == "quick" else bads):
                         r2 = list(repl)
-                        r2[pos] = bads[0]
+                        r2[pos] = bad
                         m = Mn()
                         setattr(m, f, prefill)
                         arr = getattr(m, f)
-                        col.attempt(m, f"{f}[{sl.start}:{sl.stop}:{sl.step}]=bad@{pos}", lambda: arr.__setitem__(sl, r2), "out", lambda: getattr(m, f)[:])
+                        col.attempt(m, f"{f}[{sl.start}:{sl.stop}:{sl.step}]=bad@{pos}:{bad!r}", lambda: arr.__setitem__(sl, r2), "out", lambda: getattr(m, f)[:])
                 m = Mn()
                 setattr(m, f, good)
                 arr = getattr(m, f)
